@@ -848,6 +848,116 @@ def _visit_certain_members(eng, st, stmt, musts, cur, havoc):
     return out
 
 
+def abstract_while(eng, st, stmt):
+    """`while test: body` with a symbolic test, by arbitrary-iteration abstraction (no user invariant):
+
+    * the write set of one iteration (heap fields, locals) is discovered by a probe run;
+    * zero iterations: the test is false in the pre-state (kept exactly);
+    * exactly one iteration from the exact pre-state;
+    * otherwise the run is  [earlier iterations]  +  a last iteration.  The last iteration starts, with a true test, from
+      a state that is arbitrary on the write set and leaves by a false test after its body, break, return or raise;
+      earlier iterations are represented by one arbitrary iteration that ends with a true test, whose logged effects are
+      duplicated (they may repeat), followed by a havoc of the write set.
+    Sound for partial correctness: everything outside the write set is unchanged, nothing is assumed about the write set."""
+    from .engine import RAISE
+    if stmt.orelse:
+        raise OutOfSubset("while/else")
+
+    def eval_test(s):
+        """-> (states where the test is true, states where it is false, raise outcomes)"""
+        yes, no, exc = [], [], []
+        for s2, (t2, cv) in eng.eval(s, stmt.test):
+            if t2 == RAISE:
+                exc.append((s2, ("raise", cv)))
+                continue
+            brs, excs = eng.truth_branch(s2, cv)
+            exc.extend((x, ("raise", y)) for x, (_, y) in excs)
+            for s3, b_ in brs:
+                (yes if b_ else no).append(s3)
+        return yes, no, exc
+
+    def iter_from(s):
+        """one iteration from a state in which the test holds -> [(state, ('again'|'exit'|'raise'|'return', v))]"""
+        outs = []
+        for s4, o4 in eng.exec_block(s, stmt.body):
+            if o4[0] in ("next", "continue"):
+                yes, no, exc = eval_test(s4)
+                outs.extend((x, ("again", None)) for x in yes)
+                outs.extend((x, ("exit", None)) for x in no)
+                outs.extend(exc)
+            elif o4[0] == "break":
+                outs.append((s4, ("exit", None)))
+            else:
+                outs.append((s4, o4))
+        return outs
+
+    # ---- probe
+    probe = st.clone()
+    probe.wfields = {}
+    pmark = probe.mark()
+    plocals = dict(probe.frame.locals)
+    written, assigned = {}, set()
+    examples = {}
+    for sp in eval_test(probe)[0]:
+        for s4, o4 in iter_from(sp):
+            for k, val in s4.frame.locals.items():
+                if k not in plocals or plocals[k] is not val:
+                    examples.setdefault(k, []).append(val)
+            if o4[0] != "again":
+                continue
+            for a in s4.wlog[pmark[0]:]:
+                if a <= pmark[1]:
+                    written.setdefault(a, set()).update(s4.wfields.get(a, {None}))
+            for k, val in s4.frame.locals.items():
+                if k not in plocals or plocals[k] is not val:
+                    assigned.add(k)
+
+    def havoc(s):
+        from . import world
+        for a in sorted(written):
+            world.auto_havoc_object(eng, s, a, written[a])
+        for k in sorted(assigned):
+            ex = ([plocals[k]] if k in plocals else []) + examples.get(k, [])
+            if ex:
+                s.frame.locals[k] = world.havoc_examples(eng, s, ex, k)
+
+    res = []
+    yes, no, exc = eval_test(st)
+    res.extend(exc)
+    res.extend((x, ("next", None)) for x in no)          # zero iterations
+
+    def last_iteration(s):
+        y2, _, e2 = eval_test(s)
+        res.extend(e2)
+        for s2 in y2:
+            for s4, o4 in iter_from(s2):
+                if o4[0] == "again":
+                    continue            # not the last iteration
+                res.append((s4, ("next", None) if o4[0] == "exit" else o4))
+
+    for s in yes:
+        # (c) exactly one iteration, from the exact pre-state
+        for s4, o4 in iter_from(s.clone()):
+            if o4[0] != "again":
+                res.append((s4, ("next", None) if o4[0] == "exit" else o4))
+        # (a) several iterations, only the last one logged anything
+        sa = s.clone()
+        havoc(sa)
+        last_iteration(sa)
+        # (b) an arbitrary earlier iteration (effects may repeat), then the last one
+        havoc(s)
+        n_eff = len(s.effects)
+        y2, _, e2 = eval_test(s)
+        for s2 in y2:
+            for s4, o4 in iter_from(s2):
+                if o4[0] != "again":
+                    continue            # exits from an arbitrary iteration are those of (a)
+                s4.effects.extend(s4.effects[n_eff:])
+                havoc(s4)
+                last_iteration(s4)
+    return res
+
+
 def _target_names(t):
     if isinstance(t, ast.Name):
         return [t.id]
